@@ -87,3 +87,51 @@ package export
 //@   property C17
 //@   ensures typeis(result, *jsonMapExporter) && fresh(unbox(result, *jsonMapExporter)) \
 //@        && unbox(result, *jsonMapExporter).first && unbox(result, *jsonMapExporter).j.b == j.b
+
+// ---------------------------------------------------------------- XML exporter (C18)
+
+//@ func isXmlName
+//@   property C18
+//@   safety C18
+//@   ensures result ==> xmlname(name)
+//@   assigns nothing
+//@   loop 1 invariant 0 <= rangeidx && rangeidx <= runecount(name) && (forall p in 0..rangeidx :: xmlNameRune(runeat(name, p), p))
+
+// A map is written with its keys as attribute names only if it is "simple"; Map() decides that from the keys
+// (isSimpleMap), Add relies on it. The link "Add is only called with keys of the map given to Map()" is the
+// traversal's (Export) and is not machine-checked.
+//@ func (x xmlMapExporter) Add
+//@   property C18
+//@   safety C18
+//@   requires x.x.w != nil && x.x.w.b != nil && len(x.x.w.open) > 0 && val != nil
+//@   requires x.isSimple ==> xmlname(key)
+
+//@ func (x xmlMapExporter) Open
+//@   property C18
+//@   safety C18
+//@   requires x.x.w != nil && x.x.w.b != nil
+//@   ensures result == nil && x.x.w.tagIsOpen && len(x.x.w.open) == old(len(x.x.w.open))+1
+
+//@ func (x xmlListExporter) Open
+//@   property C18
+//@   safety C18
+//@   requires x.x.w != nil && x.x.w.b != nil
+//@   ensures result == nil && x.x.w.tagIsOpen && len(x.x.w.open) == old(len(x.x.w.open))+1
+
+//@ func (x xmlListExporter) Close
+//@   property C18
+//@   safety C18
+//@   requires x.x.w != nil && x.x.w.b != nil && len(x.x.w.open) > 0
+//@   ensures result == nil && len(x.x.w.open) == old(len(x.x.w.open))-1
+
+//@ func (x xmlMapExporter) Close
+//@   property C18
+//@   safety C18
+//@   requires x.x.w != nil && x.x.w.b != nil && len(x.x.w.open) > 0
+//@   ensures result == nil && len(x.x.w.open) == old(len(x.x.w.open))-1
+
+//@ func (x xmlExporter) String
+//@   property C18
+//@   safety C18
+//@   requires x.w != nil && x.w.b != nil
+//@   ensures result == nil && len(x.w.open) == old(len(x.w.open)) && !x.w.tagIsOpen
